@@ -86,6 +86,39 @@ type oracle struct {
 	signed map[hotstuff.Hash]map[hotstuff.ID]bool // sha256(message) -> honest replicas that signed it
 	signs  []signRec
 	blsPub map[hotstuff.ID]*bls12.PointG1
+	popOK  map[hotstuff.ID]bool // BLS: the configured key comes with a valid proof of possession (computed on first use)
+}
+
+var blsPopDomain = []byte("BLS_POP_BLS12381G2_XMD:SHA-256_SSWU_RO_POP_") // the standard proof-of-possession tag
+
+// popValid checks a replica's configured proof of possession with a pairing of our own: e(pk, H_pop(pk)) = e(g1, pop).
+// An aggregate that names a replica whose key is unproven proves nothing about anybody (rogue-key attack).
+func (o *oracle) popValid(id hotstuff.ID) bool {
+	if o.popOK == nil {
+		o.popOK = map[hotstuff.ID]bool{}
+		honestOK := 0
+		for rid, pk := range o.blsPub {
+			ok := false
+			if pt, err := bls12.NewG2().FromCompressed([]byte(o.w.popMD[rid])); err == nil {
+				eng := bls12.NewEngine()
+				if hp, err := eng.G2.HashToCurve(o.w.keys.pub[rid].(*crypto.BLS12PublicKey).ToBytes(), blsPopDomain); err == nil {
+					pkc := *pk
+					lhs := eng.AddPair(&pkc, hp).Result()
+					one := bls12.G1One
+					rhs := bls12.NewEngine().AddPair(&one, pt).Result()
+					ok = lhs.Equal(rhs)
+				}
+			}
+			o.popOK[rid] = ok
+			if ok {
+				honestOK++
+			}
+		}
+		if honestOK == 0 && len(o.blsPub) > 0 {
+			panic("harness: no configured BLS key has a valid proof of possession under the standard tag")
+		}
+	}
+	return o.popOK[id]
 }
 
 var blsDomain = []byte("BLS_SIG_BLS12381G2_XMD:SHA-256_SSWU_RO_POP_") // the standard ciphersuite tag
@@ -154,7 +187,7 @@ func (o *oracle) validSigners(sig hotstuff.QuorumSignature, msgOf func(hotstuff.
 		var ids []hotstuff.ID
 		ok := true
 		s.Participants().ForEach(func(id hotstuff.ID) {
-			if !o.configured(id) {
+			if !o.configured(id) || !o.popValid(id) {
 				ok = false
 			}
 			ids = append(ids, id)
